@@ -192,7 +192,8 @@ def st_case(draw):
     for k in range(n_inst):
         ci = draw(st.integers(0, levels - 1))
         inst_cls[k] = ci
-        takes = any(x["kind"] in ("init", "new") for (n, kd), (x, _) in members_of(ci).items())
+        kinds_here = {x["kind"] for (n, kd), (x, _) in members_of(ci).items()}
+        takes = "init" in kinds_here or ("new" in kinds_here and shape != "dataclass")
         ops.append({"op": "new", "cls": ci, "k": k, "args": {"x": "a:cx"} if takes and draw(st.booleans()) else {},
                     "truth": op_truth()})
     for _ in range(draw(st.integers(2, 8))):
